@@ -129,8 +129,8 @@ impl<'a> GeneratorState<'a> {
                 if let ExprType::Immediate(r) = right2 {
                     if v.var_type == VariableType::CharPtr && !*eight_bits && v.var_const {
                         match op {
-                            Operation::Add(_) => return Ok(ExprType::Absolute(variable.clone(), *eight_bits, *off + *r)),
-                            Operation::Sub(_) => return Ok(ExprType::Absolute(variable.clone(), *eight_bits, *off - *r)),
+                            Operation::Add(_) => return Ok(ExprType::Absolute(variable.clone(), *eight_bits, off.wrapping_add(*r))),
+                            Operation::Sub(_) => return Ok(ExprType::Absolute(variable.clone(), *eight_bits, off.wrapping_sub(*r))),
                             Operation::And(_) => if *r == 255 {
                                 if high_byte {
                                     return Ok(ExprType::Immediate(0));
